@@ -391,6 +391,64 @@ pub fn c20(seed: u64, thorough: bool, out: &mut Out) {
             out.samples.push(format!("{} commands, snapshot {} bytes, restore, {} more commands on both replicas", n1, snap.len(), n2));
         }
     }
+    // Snapshots taken WHILE another thread applies commands (Raft builds snapshots concurrently with the apply task):
+    // the model takes `snapshot` and `apply` as atomic, so every snapshot must reproduce a state the sender went
+    // through - the state after j commands, for some j between the number of commands finished before the snapshot
+    // call and the number started before it returned.  (No model comparison: implementation against this oracle only.)
+    {
+        use std::sync::atomic::{AtomicUsize, Ordering};
+        use std::sync::Arc;
+        let rounds = if thorough { 24 } else { 6 };
+        let k = 20000usize;
+        let mut nsnaps = 0u64;
+        let mut overlapped = 0u64;
+        let mut reported = 0;
+        for r in 0..rounds {
+            let cmds: Vec<Vec<u8>> = std::iter::once(Cmd::Create("a".into(), 1).bytes())
+                .chain((1..k).map(|j| Cmd::Upsert((j % 3) as u64, format!("h{}:{}", r, j)).bytes()))
+                .collect();
+            let twin = Metadata::new();
+            let mut states = vec![dump(&twin, &topics)];
+            for c in &cmds {
+                let _ = twin.apply(c);
+                states.push(dump(&twin, &topics));
+            }
+            let m = Arc::new(Metadata::new());
+            let done = Arc::new(AtomicUsize::new(0));
+            let (m2, done2) = (Arc::clone(&m), Arc::clone(&done));
+            let applier = std::thread::spawn(move || {
+                for c in cmds {
+                    let _ = m2.apply(&c);
+                    done2.fetch_add(1, Ordering::SeqCst);
+                }
+            });
+            loop {
+                let lo = done.load(Ordering::SeqCst);
+                let snap = m.snapshot();
+                let hi = (done.load(Ordering::SeqCst) + 1).min(k);
+                let fresh = Metadata::new();
+                let ok = fresh.restore(&snap).is_ok();
+                let d = dump(&fresh, &topics);
+                nsnaps += 1;
+                if hi > lo + 1 || (lo > 0 && lo < k) {
+                    overlapped += 1;
+                }
+                if !(ok && (lo..=hi).any(|j| states[j] == d)) && reported < 3 {
+                    reported += 1;
+                    out.violations.push(format!(
+                        "concurrent snapshot (round {}, {} to {} of {} commands applied): a snapshot taken while another thread applies commands restores to a state the sender never went through: ok={} restored={} expected one of the states after {}..={} commands, e.g. {}",
+                        r, lo, hi, k, ok, d, lo, hi, states[lo]
+                    ));
+                }
+                if lo >= k {
+                    break;
+                }
+            }
+            applier.join().unwrap();
+        }
+        out.stats.push(("concurrent_snapshots".into(), nsnaps));
+        out.stats.push(("concurrent_snapshots_overlapping_applies".into(), overlapped));
+    }
     out.stats.push(("sequences".into(), nseq));
     out.stats.push(("nontrivial_cases".into(), nontrivial));
 }
